@@ -1538,6 +1538,12 @@ def u_sign(ctx, u):
                     rc = lib_verify(ctx, M.buf, ident, m2, sig, rng)
                     chk(ctx, rc != 1, 'verify:accepts-other-message', ret=rc, other=m2[:48].hex(), **d)
                     ctx.nontrivial('verify-other-msg', ks, ident, m2, r)
+            # altered in length: octets appended after the complete signature, or cut off its end
+            for s2, how in ((sig + b'\0', 'appended-00'), (sig + rng.randbytes(rng.choice([1, 2, 16, 64])), 'appended-junk'),
+                            (sig + sig, 'signature-twice'), (sig[:-1], 'cut-1'), (sig[:rng.randrange(1, len(sig))], 'cut')):
+                rc = lib_verify(ctx, M.buf, ident, msg, s2, rng)
+                chk(ctx, rc != 1, 'verify:accepts-altered-signature:' + how.split('-')[0], ret=rc, how=how, siglen=len(s2), **d)
+                ctx.nontrivial('verify-length', ks, ident, how, len(s2))
             if flip_target is None or ml < len(flip_target[1]):
                 flip_target = (ident, msg, sig)
             if mi == 0:
@@ -1852,6 +1858,12 @@ def u_enc(ctx, u):
                           id=fid[:48].hex(), plaintext_len=len(fmsg))
                 ctx.nontrivial('decrypt-flip', ct, bit)
             ctx.stat('ciphertext_bits_flipped', len(sel))
+            # altered in length: octets appended after the complete ciphertext, or cut off its end
+            for c2_, hw in ((ct + b'\0', 'appended'), (ct + rng.randbytes(rng.choice([1, 16, 64])), 'appended'), (ct + ct, 'appended'),
+                            (ct[:-1], 'cut'), (ct[:rng.randrange(1, len(ct))], 'cut')):
+                rc, pt, olen = lib_decrypt(ctx, key, fid, bytes(c2_), 255)
+                chk(ctx, rc != 1, 'decrypt:accepts-altered-ciphertext:' + hw, ret=rc, ctlen=len(c2_), plaintext_len=len(fmsg))
+                ctx.nontrivial('decrypt-length', ct, len(c2_))
         for x in (key, key2, ib):
             x.free()
     ctx.sample({'kind': 'enc', 'ke': hx(ke), 'idlens': u['idlens'], 'lens': lens[:8], 'flips': u.get('flips')})
